@@ -11,6 +11,7 @@ mod qcompile;
 mod render;
 mod sim;
 // REGISTRY (modules): one `mod cNN;` line per Engine-B/C check
+mod c11;
 
 use infra::Tier;
 use std::time::Instant;
@@ -30,6 +31,7 @@ fn run_check(id: &str, tier: Tier) -> Result<infra::Report, String> {
         "C14" => sim::checks::c14(tier),
         "C07" => c07::run(tier),
         "C02" => c02::run(tier),
+        "C11" => c11::run(tier),
         // REGISTRY (run): "CNN" => cNN::run(tier),
         _ => Err(format!("no check registered for {}", id)),
     }
@@ -48,6 +50,7 @@ fn run_replay(id: &str, path: &std::path::Path) -> i32 {
         _ => match id {
             "C07" => c07::replay(replay),
             "C02" => c02::replay(replay),
+            "C11" => c11::replay(replay),
             // REGISTRY (replay): "CNN" => cNN::replay(replay),
             _ => Err(format!("no replay handler for {}", id)),
         },
